@@ -70,18 +70,18 @@ def withClass {κ} (cs : List (ClassReg κ)) (c : Nat) (f : Reg κ → Reg κ ×
     let own := cr.ownId || r'.autoId != eid
     (cs.set c { cr with reg := r', ownId := own }, out)
 
-def reachable (w : World) : List Nat :=
-  let rec go : Nat → List Nat → List Nat → List Nat
-    | 0, _, seen => seen
-    | fuel + 1, todo, seen =>
-      match todo with
-      | [] => seen
-      | x :: rest =>
-        if seen.contains x then go fuel rest seen
-        else
-          let ch := match w.nodes.find? (fun n => n.id == x) with | some n => n.children | none => []
-          go fuel (ch ++ rest) (x :: seen)
-  go (w.nodes.length * (w.nodes.length + 2) + w.held.length + 8) w.held []
+def childrenOf (w : World) (x : Nat) : List Nat :=
+  match w.nodes.find? (fun n => n.id == x) with | some n => n.children | none => []
+
+/-- one round of following strong references -/
+def expand (w : World) (s : List Nat) : List Nat := (s ++ s.flatMap w.childrenOf).eraseDups
+
+/-- everything reachable from a user handle: `nodes.length + 1` rounds reach the fixed point -/
+def iter {α} (f : α → α) : Nat → α → α
+  | 0, x => x
+  | n + 1, x => iter f n (f x)
+
+def reachable (w : World) : List Nat := iter w.expand (w.nodes.length + 1) w.held.eraseDups
 
 def dropDead {κ} [DecidableEq κ] (cs : List (ClassReg κ)) (alive : List Nat) : List (ClassReg κ) :=
   cs.map (fun cr => { cr with reg := { cr.reg with objs := cr.reg.objs.filter (fun o => alive.contains o.id) } })
